@@ -10,9 +10,10 @@
     context id (tx hash, per-block index) is issued while a context with that id is still
     stored.  It follows from "the context-creating transactions of the history have pairwise
     distinct hashes" ([fresh_history_from_distinct_hashes], Props/C08.v). *)
+From Irismod Require Import Service.Check.
 From Irismod Require Import Service.Model Service.Proofs Service.ProofsHist Service.ProofsEscrow
   Service.ProofsSched Service.ProofsBatch Service.ProofsLiab Service.ProofsTally Service.ProofsLive Service.ProofsModule Service.ProofsFresh
-  Service.ProofsCallback Service.ProofsSchedule Service.ProofsModuleHist.
+  Service.ProofsCallback Service.ProofsSchedule Service.ProofsModuleHist Service.ProofsCheck.
 
 (** Over EVERY history (any list of steps: messages of any kind and content, valid or not, block
     ends with expiry, slashing, refunds and new batches, rate changes, transfers, module
@@ -185,6 +186,94 @@ Theorem reachable_states_satisfy_DepInv :
 Proof. exact DepInv_reachable. Qed.
 Print Assumptions reachable_states_satisfy_DepInv.
 
+(** The model passes its own check, clauses 1 and 2 of [holds_C07] (Service/Check.v).
+    [obs_of univ code newctx cb s] is what the driver would observe of the model state [s]
+    (balances of the accounts/denoms in [univ], bindings, contexts, requests as the same tuples,
+    tallies, queues, markers).  For EVERY history (distinct hashes on context-creating
+    transactions, escrows empty at the start), whatever the previous observation [p] and the step
+    [st]: evaluated on the observation of the state reached, [holds_C07] never answers 1 (deposit
+    escrow <> sum of binding deposits) nor 2 (request escrow <> active fees + earned fees) — the
+    boolean clauses the checker evaluates are re-proved over the observation lists from [DepInv]
+    and [EscInv].  Clause 3 and clause 5: next theorems.  PARTIAL: clauses 4 and 6 (balance movements
+    and slashing over an end-block) are not covered. *)
+Theorem model_passes_C07_clauses_1_2 :
+  forall c steps h0 t0 l0 univ p st code nc cb,
+    clean l0 -> NoDup (create_txhs steps) ->
+    In (DEP, BASE) univ -> (forall d, In d (denoms c) -> In (REQ, d) univ) ->
+    let s := run c (init h0 t0 l0) steps in
+    let k := holds_C07 c p st (obs_of univ code nc cb s) in
+    k <> 1 /\ k <> 2.
+Proof. exact model_passes_C07_clauses_1_2_lemma. Qed.
+Print Assumptions model_passes_C07_clauses_1_2.
+
+(** clause 3, over EVERY history without any hypothesis: every owner-side tally entry equals the
+    sum of the provider-side tallies of the providers whose BINDINGS name that owner, and the
+    owner entry of every earning provider's owner equals that sum — the checker reads the owner of
+    a provider off the observed bindings; that this is the owner the keeper credits is the
+    invariant [WInv] of Service/ProofsCheck.v (every binding of a provider records the provider's
+    owner; only bound providers have an owner) *)
+Theorem model_passes_C07_clause_3 :
+  forall c steps h0 t0 l0 univ p st code nc cb,
+    let s := run c (init h0 t0 l0) steps in
+    holds_C07 c p st (obs_of univ code nc cb s) <> 3.
+Proof. exact model_passes_C07_clause_3_lemma. Qed.
+Print Assumptions model_passes_C07_clause_3.
+
+(** clause 5 (one model step from any state): a successful response moves tax = floor(fee * rate)
+    from the request escrow to the tax account in the fee denom, credits fee - tax to the
+    provider's tally, and changes no actor's balance.  Hypotheses: a non-negative tax rate, the
+    stored requests' fees are non-negative (invariant [EscInv] of reachable states) and the observed
+    universe covers the escrow and tax accounts in their fee denoms. *)
+Theorem model_passes_C07_clause_5 :
+  forall c s st univ pcode pnc pcb,
+    0 <= c_tax c ->
+    (forall rid q, get rid (reqs s) = Some q -> 0 <= q_fee q /\ In (TAX, q_fd q) univ /\ In (REQ, q_fd q) univ) ->
+    holds_C07 c (obs_of univ pcode pnc pcb s) st (obs_step univ c s st) <> 5.
+Proof. exact model_passes_C07_clause_5_lemma. Qed.
+Print Assumptions model_passes_C07_clause_5.
+
+(** [model_passes_check], PARTIAL, for [check_case_C07] itself.  [model_case univ c h0 t0 l0 steps]
+    is the case the driver would print for the MODEL: its own observation after every step of ANY
+    history.  Whatever the checker ([check_case_C07] = correspondence, first violating step, clause)
+    answers on it, there is no divergence (first component -1) and the clause is never 1, 2, 3 or 5
+    (so it is 0, 4 or 6): every boolean entry of those clauses of
+    [holds_C07] is re-proved over the observation lists from the invariants.  NOT covered: clause 4
+    (per-account balance movement over an end-block / call) and clause 6 (slashing iterated per
+    expired request); the correspondence component is [model_corresponds_to_itself] below.  Hypotheses: no module-served service,
+    a non-negative tax rate, escrows empty at the start, distinct hashes, no end-block with a
+    negative time increment, the observed universe [univ] contains the escrow accounts in the
+    configured denoms and the escrow / tax accounts in the fee denoms of the stored requests
+    (decidable: [fdsb_ok]), and the initial ledger is the one the checker rebuilds from the first
+    observation. *)
+Theorem model_passes_clauses_C07 :
+  forall c steps h0 t0 l0 univ,
+    c_msvc c < 0 -> 0 <= c_tax c -> clean l0 -> NoDup (create_txhs steps) -> Forall good_step steps ->
+    In (DEP, BASE) univ -> (forall d, In d (denoms c) -> In (REQ, d) univ) ->
+    (forall pre st post, steps = pre ++ st :: post -> forall rid q, get rid (reqs (run c (init h0 t0 l0) pre)) = Some q ->
+       In (TAX, q_fd q) univ /\ In (REQ, q_fd q) univ) ->
+    ledger_of (obs_of univ 0 None [] (init h0 t0 l0)) = l0 ->
+    forall corr p k, check_case_C07 (model_case univ c h0 t0 l0 steps) = (corr, p, k) ->
+      corr = -1 /\ k <> 1 /\ k <> 2 /\ k <> 3 /\ k <> 5.
+Proof. exact model_passes_clauses_C07_corr_lemma. Qed.
+Print Assumptions model_passes_clauses_C07.
+
+(** The correspondence component, for BOTH properties, over EVERY history with distinct hashes
+    (module-served services included): on the case the driver would print for the model, the
+    checker never sees the model diverge from its own observation — the first component of
+    [check_case_C07] and of [check_case_C08] is -1.  (That [obs_of] is a faithful projection needs
+    every map of the state to have distinct keys: invariants [KInv], [kc], [BatchInv], [TInv].)
+    With [model_passes_clauses_C07] / [model_passes_clauses_C08]: the checker answers
+    (-1, p, k) with k outside the clauses listed there. *)
+Theorem model_corresponds_to_itself :
+  forall c steps h0 t0 l0 univ,
+    NoDup (create_txhs steps) ->
+    ledger_of (obs_of univ 0 None [] (init h0 t0 l0)) = l0 ->
+    let cs := model_case univ c h0 t0 l0 steps in
+    (forall corr p k, check_case_C07 cs = (corr, p, k) -> corr = -1)
+    /\ (forall corr p k, check_case_C08 cs = (corr, p, k) -> corr = -1).
+Proof. exact model_corresponds_to_itself_lemma. Qed.
+Print Assumptions model_corresponds_to_itself.
+
 (** ** the hypotheses are satisfiable, the conclusions are not vacuous: a history with a
     time-discounted binding (price 100, half price until t = 2000), a second flat binding
     (60), one call to both, one response, one expiry with slashing *)
@@ -253,3 +342,30 @@ Proof. vm_compute. repeat split; try reflexivity; discriminate. Qed.
 Example c07_fresh_history_satisfiable :
   fresh_history ex_cfg (init 1 1000 ex_l0) ex_hist /\ NoDup (create_txhs ex_hist) /\ NoDup (create_txhs ex_hist_m).
 Proof. split; [apply fresh_historyb_ok; vm_compute; reflexivity|]. split; vm_compute; repeat constructor; simpl; tauto. Qed.
+
+(** the whole checker ([check_all]: correspondence, C07, C08) run on the model's OWN observations
+    of the two example histories answers "no divergence, no violation" *)
+Definition ex_univ : list (Z * Z) := flat_map (fun a => [(a, 0); (a, 1)]) [DEP; REQ; TAX; 0; 1; 2; 3; 4; 5; 6; 7].
+Example c07_model_passes_check_on_examples :
+  clean ex_l0 /\ In (DEP, BASE) ex_univ /\ (forall d, In d (denoms ex_cfg) -> In (REQ, d) ex_univ)
+  /\ check_all (model_case ex_univ ex_cfg 1 1000 ex_l0 ex_hist) = (-1, -1, 0, -1, 0)
+  /\ check_all (model_case ex_univ ex_cfg_m 1 1000 ex_l0 ex_hist_m) = (-1, -1, 0, -1, 0).
+Proof.
+  split; [split; [intros d|]; reflexivity|]. split; [vm_compute; tauto|].
+  split; [intros d Hd; vm_compute in Hd; destruct Hd as [<-|[<-|[]]]; vm_compute; tauto|].
+  split; vm_compute; reflexivity.
+Qed.
+
+(** the hypotheses of [model_passes_clauses_C07] hold of the first example history *)
+Example c07_model_passes_clauses_hypotheses_satisfiable :
+  c_msvc ex_cfg < 0 /\ 0 <= c_tax ex_cfg /\ NoDup (create_txhs ex_hist) /\ Forall good_step ex_hist
+  /\ (forall pre st post, ex_hist = pre ++ st :: post -> forall rid q, get rid (reqs (run ex_cfg (init 1 1000 ex_l0) pre)) = Some q ->
+        In (TAX, q_fd q) ex_univ /\ In (REQ, q_fd q) ex_univ)
+  /\ ledger_of (obs_of ex_univ 0 None [] (init 1 1000 ex_l0)) = ledger_of (obs_of ex_univ 0 None [] (init 1 1000 (ledger_of (obs_of ex_univ 0 None [] (init 1 1000 ex_l0)))))
+  /\ check_case_C07 (model_case ex_univ ex_cfg 1 1000 (ledger_of (obs_of ex_univ 0 None [] (init 1 1000 ex_l0))) ex_hist) = (-1, -1, 0).
+Proof.
+  split; [vm_compute; reflexivity|]. split; [vm_compute; discriminate|].
+  split; [vm_compute; repeat constructor; simpl; tauto|].
+  split; [repeat constructor; vm_compute; discriminate|].
+  split; [apply fdsb_ok; vm_compute; reflexivity|]. split; vm_compute; reflexivity.
+Qed.
